@@ -88,6 +88,8 @@ pub fn gen(rng: &mut Rng, thorough: bool, sink: &mut Sink) {
     sink.case(bcase(1, format!("did:iota:{}{}", pre, body).as_bytes()), "tag-length");
     sink.case(bcase(1, format!("did:iota:dev:{}{}", pre, body).as_bytes()), "tag-length");
   } }
+  // every network spelling with an empty / degenerate tag (the method id may end in ':')
+  for n in nets { for t in ["", "0x", "0", ":", "0x1", "x"] { for m in ["iota", "IOTA", "key"] { sink.case(bcase(1, format!("did:{}:{}:{}", m, n, t).as_bytes()), "empty-tag"); } } }
   for bad in ["g", "G", " ", ":", "%", "-"] { let mut t = tag.to_string(); t.replace_range(10..11, bad); sink.case(bcase(1, format!("did:iota:{}", t).as_bytes()), "tag-nonhex"); }
   for s in ["", "did:iota", "did:iota:", "did:iota::", " did:iota:0x00", "did:iota:a:b:c"] { sink.case(bcase(1, s.as_bytes()), "table"); }
   // str::to_lowercase is Unicode-aware: KELVIN SIGN lowers to ASCII 'k', U+0130 to 'i' + combining dot
